@@ -148,11 +148,53 @@ func selectCell(cells []value, idx sym) value {
 		}
 		return cells[v]
 	}
-	// bounds check (trivially true when the index type cannot exceed the length)
-	if idx.w >= 64 || uint64(len(cells)) < uint64(1)<<uint(idx.w) {
+	// bounds check (trivially true when the index type cannot exceed the length,
+	// or when the index is masked with a constant below the length)
+	if (idx.w >= 64 || uint64(len(cells)) < uint64(1)<<uint(idx.w)) && !maskedBelow(idx.t, len(cells)) {
 		inb := sym{t: fmt.Sprintf("(bvult %s %s)", idx.t, bvlit(uint64(len(cells)), idx.w))}
 		if !ex.decide(inb) {
 			panic(fmt.Sprintf("runtime error: index out of range [symbolic] with length %d", len(cells)))
+		}
+	}
+	// table lookup of a table lookup (e.g. base64 decodeMap[encode[i]]): compose
+	// the two constant tables, so that inverse tables collapse to the index
+	orgKey := idx.t
+	if strings.HasPrefix(orgKey, "((_ zero_extend ") && strings.HasSuffix(orgKey, ")") {
+		// a lookup result that was widened before being used as an index
+		if j := strings.Index(orgKey, ") "); j > 0 {
+			orgKey = orgKey[j+2 : len(orgKey)-1]
+		}
+	}
+	if org, ok := ex.selOrigin[orgKey]; ok {
+		if outer, ok2 := constCells(cells); ok2 {
+			comp := make([]value, len(org.cells))
+			okc := true
+			ident := true
+			for i, v := range org.cells {
+				if v >= uint64(len(outer)) {
+					okc = false
+					break
+				}
+				comp[i] = outer[v]
+				if u, isU := asU64(outer[v]); !isU || u != uint64(i) {
+					ident = false
+				}
+			}
+			if okc {
+				first := toSym(cells[0])
+				if ident {
+					// result equals the original index, in the cell type
+					switch {
+					case first.w == org.idx.w:
+						return sym{org.idx.t, first.w, first.signed}
+					case first.w < org.idx.w:
+						return mk(fmt.Sprintf("((_ extract %d 0) %s)", first.w-1, org.idx.t), first.w, first.signed)
+					default:
+						return mk(fmt.Sprintf("((_ zero_extend %d) %s)", first.w-org.idx.w, org.idx.t), first.w, first.signed)
+					}
+				}
+				return selectCell(comp, org.idx)
+			}
 		}
 	}
 	// the most frequent concrete value becomes the default of the ite chain
@@ -181,7 +223,56 @@ func selectCell(cells []value, idx sym) value {
 	for i := 0; i < n; i++ {
 		sb.WriteByte(')')
 	}
-	return mk(sb.String(), first.w, first.signed)
+	res := mk(sb.String(), first.w, first.signed)
+	if cc, ok := constCells(cells); ok {
+		vals := make([]uint64, len(cc))
+		for i, c := range cc {
+			vals[i], _ = asU64(c)
+		}
+		ex.selOrigin[res.t] = selOrig{cells: vals, idx: idx}
+	}
+	return res
+}
+
+type selOrig struct {
+	cells []uint64
+	idx   sym
+}
+
+func asU64(v value) (uint64, bool) {
+	switch x := v.(type) {
+	case uint8:
+		return uint64(x), true
+	case int8:
+		return uint64(uint8(x)), true
+	case uint16:
+		return uint64(x), true
+	case int16:
+		return uint64(uint16(x)), true
+	case uint32:
+		return uint64(x), true
+	case int32:
+		return uint64(uint32(x)), true
+	case uint64:
+		return x, true
+	case int64:
+		return uint64(x), true
+	case uint:
+		return uint64(x), true
+	case int:
+		return uint64(x), true
+	}
+	return 0, false
+}
+
+// constCells returns the cells if all of them are concrete integers.
+func constCells(cells []value) ([]value, bool) {
+	for _, c := range cells {
+		if _, ok := asU64(c); !ok {
+			return nil, false
+		}
+	}
+	return cells, true
 }
 
 type symstrIter struct {
@@ -389,4 +480,29 @@ func lastIndexByteCells(cells []value, c value) value {
 		}
 	}
 	return -1
+}
+
+// maskedBelow recognises index terms of the form (bvand X #x...) whose
+// constant mask is smaller than n.
+func maskedBelow(t string, n int) bool {
+	if !strings.HasPrefix(t, "(bvand ") || !strings.HasSuffix(t, ")") {
+		return false
+	}
+	i := strings.LastIndex(t, " #x")
+	if i < 0 {
+		return false
+	}
+	lit := t[i+3 : len(t)-1]
+	var v uint64
+	for _, c := range lit {
+		switch {
+		case c >= '0' && c <= '9':
+			v = v<<4 | uint64(c-'0')
+		case c >= 'a' && c <= 'f':
+			v = v<<4 | uint64(c-'a'+10)
+		default:
+			return false
+		}
+	}
+	return v < uint64(n)
 }
